@@ -1,5 +1,5 @@
 from .. import facts
-from ..rules import factors, status, image, algebra, opacity
+from ..rules import factors, status, image, algebra, opacity, codec
 
 
 def run(ck):
@@ -13,3 +13,5 @@ def run(ck):
     factors.r10f_simd_fetchers(ck, P, 'C09-R5')
     opacity.r6_outside_is_transparent(ck, P)
     factors.r10_composite_bodies(ck, P)      # C02-R10: fast paths registered for alpha-less sources must treat them as opaque in every lane
+    codec.r15_alphaless_fetchers_force_alpha(ck, P, 'C09-R7')   # an alpha-less source reads as opaque for every pixel of the scanline
+    codec.r12_simd_helpers(ck, P, 'C09-R8')                     # the widening helpers the fetchers delegate to
